@@ -36,7 +36,8 @@ AttrPool == <<
 TypePool == <<
   TNm("u32"), TCPtr(TNm("T")), TMPtr(TCPtr(TNm("u8"))), TArr(TNm("u8"), 16),
   TArr(TArr(TMPtr(TNm("X")), 2), 3), TUnk(8), TCPtr(TArr(TCPtr(TMPtr(TNm("Deep"))), 4)),
-  TNm("Shared<Thing>"), TUnk(0), TMPtr(TNm("void")), TArr(TNm("Elem"), 4096) >>
+  TNm("Shared<Thing>"), TUnk(0), TMPtr(TNm("void")), TArr(TNm("Elem"), 4096),
+  TNm("Vector<SharedPtr<Vehicle>>"), TCPtr(TNm("r#type")) >>
 
 Nth(pool, i) == pool[((i - 1) % Len(pool)) + 1]
 
@@ -78,9 +79,9 @@ MkModule(i, j, vis, withVft, emptyBody) ==
                        [name |-> "B", expr |-> EInt(Num("i32min", 0)), has |-> TRUE, attrs |-> <<AId("default")>>],
                        [name |-> "r#type", expr |-> EInt(NumInt(7)), has |-> TRUE, attrs |-> <<a1>>]>>]
   IN [attrs |-> IF i % 2 = 0 THEN <<AAs("doc", EStr(" module doc")), a1>> ELSE <<>>,
-      uses |-> IF j % 3 = 0 THEN <<>> ELSE <<<<"a", "b", "C">>, <<"solo">>, <<"gen", "List<Item>">>>>,
+      uses |-> IF j % 3 = 0 THEN <<>> ELSE <<<<"a", "b", "C">>, <<"solo">>, <<"gen", "List<Item>">>, <<"r#mod", "r#type">>, <<"deep", "Map<Inner<Key>>">>>>,
       exts |-> <<[name |-> "Ext", attrs |-> <<AFn("size", <<EInt(NumInt(8))>>), AFn("align", <<EInt(NumInt(4))>>)>>],
-                 [name |-> "Vec<Thing>", attrs |-> <<a2>>]>>,
+                 [name |-> "Vec<Thing>", attrs |-> <<a2>>], [name |-> "Outer<Inner<r#in>>", attrs |-> <<>>]>>,
       evals |-> <<[vis |-> vis, name |-> "global", ty |-> t2, attrs |-> <<AFn("address", <<EInt(NumInt(4096))>>), a1>>]>>,
       defs |-> <<T, E>>,
       impls |-> <<[name |-> "Thing", attrs |-> <<a1>>, funcs |-> SubSeq(fns, 1 + (j % 3), 5)]>>,
